@@ -111,7 +111,7 @@ def strat(draw, tier):
                 draws=[[dnames[i], dtypes[i]] for i in range(n_draw_vars)], user_types=user_types,
                 R=draw(st.integers(1, 5)) * 2, interleaved=interleave, perm_blocks=perm_blocks, within_seed=within_seed,
                 np_seed=0, edit_drop=None if n_draw_vars else edit_drop,
-                prelude=bool(n_draw_vars) and draw(st.booleans()))
+                prelude=bool(n_draw_vars) and draw(st.booleans()), catalog=draw(st.booleans()))
 
 
 def _permuted_table(case):
@@ -156,6 +156,18 @@ def _evaluate(case, table):
     res['values'] = np.asarray(e.get_value_c(database=database, number_of_draws=case['R'], prepare_ids=True),
                                dtype=float).tolist()
     res['data_after'] = {c: np.asarray(database.data[c], dtype=float).tolist() for c in database.data.columns}
+    root_ = case['roots'][0]
+    traj_ = root_ if root_[0] == 'PanelTraj' else (root_[1] if root_[0] == 'log' and root_[1][0] == 'PanelTraj' else None)
+    if case.get('catalog') and traj_ is not None:
+        # the trajectory is the selected alternative of a catalog (specification search over trajectories)
+        from biogeme.catalog import Catalog
+        from biogeme.expressions import log as _log
+
+        bld = build.Builder([], overloads=case['overloads'])
+        cat = Catalog.from_dict('c09_specification', {'first': bld.build(traj_), 'second': bld.build(traj_)})
+        full = cat if root_[0] == 'PanelTraj' else _log(cat)
+        res['values_through_catalog'] = np.asarray(full.get_value_c(database=database, number_of_draws=case['R'], prepare_ids=True),
+                                                   dtype=float).tolist()
     if case.get('edit_drop') and len(database.data) >= 2:
         # the public table is edited with pandas after panel(): the map must follow at the next evaluation
         n_rows = len(database.data)
@@ -303,6 +315,10 @@ def judge(case) -> Outcome:
                          f'{refsem.render(case["roots"][0])[:250]}; ids {ids}')
                 return out
         values_by_id[tag] = dict(zip(r['map_index'], vals))
+        if 'values_through_catalog' in r and r['values_through_catalog'] != vals:
+            out.fail('trajectory:through_catalog', f'the same trajectory as selected alternative of a catalog evaluates to '
+                                                   f'{r["values_through_catalog"]}, directly to {vals} ({tag})')
+            return out
         if 'edit' in r:
             ed = r['edit']
             try:
